@@ -522,5 +522,7 @@ class Ctx:
             "known_findings_hit": {k: v["n"] for k, v in self.known_hits.items()},
             "notes": self.notes,
         }
-        os.makedirs(os.path.join(VERIF, "evidence"), exist_ok=True)
-        json.dump(ev, open(os.path.join(VERIF, "evidence", self.pid + ".json"), "w"), indent=1, default=str)
+        # evidence is about /repo itself; a run pointed at a scratch worktree (VERIF_REPO) must not overwrite it
+        edir = os.path.join(VERIF, "evidence") if REPO == "/repo" else os.path.join(VERIF, ".build", "evidence-scratch")
+        os.makedirs(edir, exist_ok=True)
+        json.dump(ev, open(os.path.join(edir, self.pid + ".json"), "w"), indent=1, default=str)
